@@ -531,7 +531,7 @@ var c15CuratedValues = []c15Values{
 	{Raw: []byte("t: 2001-12-14\nu: ünï # trailing comment\n")},
 }
 
-func c15GenValues(t *rapid.T) *c15Values {
+func c15GenValues(t *rapid.T, bom bool) *c15Values {
 	var v c15Values
 	switch rapid.IntRange(0, 9).Draw(t, "valK") {
 	case 0, 1, 2:
@@ -539,7 +539,10 @@ func c15GenValues(t *rapid.T) *c15Values {
 		v.Raw = append([]byte(nil), v.Raw...)
 	case 3:
 		// a values file that starts with a UTF-8 byte order mark
-		v = c15Values{Raw: []byte(c15BOM + "a: 1\n"), Want: `{"a":1}`}
+		v = c15Values{Raw: []byte("a: 1\n"), Want: `{"a":1}`}
+		if bom {
+			v.Raw = []byte(c15BOM + "a: 1\n")
+		}
 	default:
 		tree := c15GenTree(t, 2, "vt")
 		e := &c15Emitter{pick: func(n int) int { return rapid.IntRange(0, n-1).Draw(t, "vy") }}
@@ -624,7 +627,15 @@ func c15GenPath(t *rapid.T) string {
 	return dir + "/" + base
 }
 
-func c15GenContent(t *rapid.T) ([]byte, string) {
+func c15GenContent(t *rapid.T, bom bool) ([]byte, string) {
+	b, class := c15GenContent0(t)
+	if class == "bom" && !bom {
+		return b[len(c15BOM):], "text"
+	}
+	return b, class
+}
+
+func c15GenContent0(t *rapid.T) ([]byte, string) {
 	switch rapid.IntRange(0, 19).Draw(t, "cK") {
 	case 0:
 		return []byte{}, "empty"
@@ -647,7 +658,10 @@ func c15GenContent(t *rapid.T) ([]byte, string) {
 		}
 		return []byte(c15BOM + "{{ .Values.x }}"), "bom"
 	case 5:
-		n := rapid.IntRange(60000, 140000).Draw(t, "bigN")
+		if rapid.IntRange(0, 2).Draw(t, "bigK") != 0 {
+			return []byte("not so big\n"), "text"
+		}
+		n := rapid.IntRange(60000, 100000).Draw(t, "bigN")
 		b := make([]byte, n)
 		for i := range b {
 			b[i] = byte(i*7 + i/251)
@@ -677,6 +691,8 @@ func c15GenContent(t *rapid.T) ([]byte, string) {
 
 type c15Info struct {
 	labels map[string]bool
+	// bom: whether this case may contain files that start with a UTF-8 byte order mark (one case in eight)
+	bom bool
 }
 
 func (i *c15Info) add(l string) { i.labels[l] = true }
@@ -714,7 +730,7 @@ func c15GenFiles(t *rapid.T, max int, lvl int, info *c15Info) []c15File {
 			taken[strings.Join(parts[:j], "/")] = true
 		}
 		isFile[p] = true
-		data, class := c15GenContent(t)
+		data, class := c15GenContent(t, info.bom)
 		out = append(out, c15F(p, data))
 		info.add("content:" + class)
 		base := parts[len(parts)-1]
@@ -769,7 +785,7 @@ func c15GenSpec(t *rapid.T, lvl int, name string, info *c15Info) *c15Spec {
 		info.add("metadata-needs-sanitizing")
 	}
 	if rapid.IntRange(0, 3).Draw(t, "hasVals") != 0 {
-		s.Values = c15GenValues(t)
+		s.Values = c15GenValues(t, info.bom)
 		if strings.HasPrefix(string(s.Values.Raw), c15BOM) {
 			info.add("content:bom")
 		}
